@@ -1614,6 +1614,8 @@ fn emit_calls(seed: u64, tier: Tier, unit: u64, sink: &mut dyn FnMut(Plan) -> bo
                         kind,
                         k,
                         t: t.iter().map(|x| Fx::new(*x)).collect(),
+                        preset: None,
+                        preset_share: false,
                     };
                     let n = t.len() - k;
                     for ntau in [0usize, n, n + 1] {
@@ -1645,6 +1647,8 @@ fn emit_calls(seed: u64, tier: Tier, unit: u64, sink: &mut dyn FnMut(Plan) -> bo
                     kind: r.below(3) as u8,
                     k,
                     t: t.into_iter().map(Fx::new).collect(),
+                    preset: None,
+                    preset_share: false,
                 };
                 let good = gen_solve(r, &spec, false);
                 sink(Plan::Call(CallSpec::Csolve {
